@@ -23,6 +23,25 @@ must contain the planted vector when `#signatures × bias bits ≥ 2·bit_length
 the correspondence run records, on the real code with planted bias of every kind, how often the
 recorded LLL output contains ± the planted row when the key is found (`extra.chain_statistics`).
 
+SECOND REVIEW (M1, M2) — read Props/C08ChainAny.lean for the statements to cite.
+(M1) The `sigs_*` / `chain_*` theorems of THIS file put the natural number `d` in the key position
+of the planted row.  fpylll returns that coordinate reduced to `(−n/2, n/2]`, i.e. `d − n` for every
+key above `n/2`: for about half of all keys the hypothesis `hlll` below is FALSE on real runs that do
+find the key (kernel witness on secp256r1: Props/C08ChainAnyEx.lean).  The theorems stay true; the
+generalisations with ANY representative `x ≡ d (mod n)` (and the family `{d, d − n}` that occurs)
+are `C08ChainAny.chain_*_any`, `chain_bias_post`, `chain_bias_family`.  The `sandwich_*` theorems
+here already take any representative `x`.
+(M2) The bias hypotheses `hbias` are used ONLY for the entry-bound conjunct of PRE; POST and CHECK do
+not depend on them (`C08ChainAny.chain_bias_post` proves the verdict with no bias and no signing
+relation), so every `chain_*` theorem below also holds for unbiased nonces — all of its content is
+in the oracle hypothesis `hlll`.  What the bias buys is that the planted row is SHORT, which is what
+an LLL guarantee would need; the statements that carry this in a form that is false without bias
+(`ScaleShort`, margin `r·bl + 2M ≤ M·bits`) are in Props/C08ChainAny.lean.  Three bounds of this
+file are weaker than the text suggests: COMMON_POSTFIX bounds the entries by `2^(bl − β)·w` with
+`β = max(3, fb)` (what the default weight exploits), not by the number of common bits; the Cr50
+theorems use `c < 256` only for the sign (no bound in the conclusion: `sandwich_cr50_short` adds
+it); the LCG bound `∀ B, … → |e·w| < B·w` is a tautology (`sandwich_lcg_any` states it on the entries).
+
 Vocabulary: `ent v i` entry `i` (0 outside); `lincomb dim cs rows = Σ cs_j • rows_j`;
 `PMMem row basis` = `row ∈ basis ∨ −row ∈ basis`; `defaultW bias len fb` = the value of the
 `if w is None:` block (`fb` = float oracle `int(n.bit_length()/len(a)*1.25)`, COMMON_POSTFIX only).
